@@ -297,6 +297,31 @@ func planC12(tier string, root *simcore.RNG) *plan {
 				Sites: map[string]uint32{"close": 1, "cons.stl": 1, "cons.stl.flush": 1}, Sched: Sched{Policy: "fifo"}, Env: genEnv(r), Note: "stalled-device", StepCap: 4000000})
 		}
 	}
+	// part 1i: a write failure followed by a renderer that keeps producing for a long
+	// time in real time (pauses 7 s / 11 s after its first batch, which is large enough
+	// to make the first flush fail): the call must still return
+	{
+		stalls := []int{11000}
+		if thorough {
+			stalls = []int{7000, 11000, 11000, 31000}
+		}
+		for i, ms := range stalls {
+			r := root.Fork()
+			n := 1500 + r.Intn(1500)
+			f := Fault{Kind: "devfull"}
+			if i%2 == 1 {
+				f = Fault{Kind: "fsize", Budget: int64(4096 * (1 + r.Intn(3)))}
+			}
+			j := Job{ID: 1, Kind: "script3", Sink: "stl", N: n, Batches: [][]Run{{{400, 1}, {5, (n - 400) / 5}}}, Coords: "index", Fault: f, StallMs: ms}
+			if i >= 2 {
+				n2 := 600 + r.Intn(400)
+				j = Job{ID: 1, Kind: "script2", Sink: pick(r, []string{"dxf", "svg"}), N: n2, Batches: [][]Run{{{300, 1}, {5, (n2 - 300) / 5}}}, Coords: "index", Fault: Fault{Kind: "devfull"}, StallMs: ms}
+			}
+			pl.scenarios = append(pl.scenarios, &Scenario{Prop: "C12", Family: "fault", Seed: r.Uint64(), Groups: [][]Job{{j}},
+				// (no hooks on the writer's side: it must be running, not parked, while the producer pauses)
+				Sites: map[string]uint32{"close": 1, "prod": 16}, Sched: Sched{Policy: "fifo"}, Env: genEnv(r), Note: "failure-then-slow-producer", StepCap: 4000000})
+		}
+	}
 	// part 1b: a failing sink next to healthy renders in the same process
 	// (they share the worker pool and the evaluation channel)
 	npairs := 40
@@ -462,7 +487,7 @@ func planC12(tier string, root *simcore.RNG) *plan {
 	}
 	histories += mixed
 	pl.extra = map[string]any{"fault_points_enumerated": faultPoints, "render_histories": histories}
-	pl.rule = "part 1: for every render-to-file entry (ToSTL/To3MF/ToDXF/ToSVG) x renderer (scripted; uniform and octree marching cubes; uniform/quadtree marching squares; 2D dual contouring) x fault (create fails: missing directory, path is a directory; /dev/full; the file is unlinked right after it was created; the process is out of file descriptors (EMFILE); the path is a named pipe with a reader (writes succeed, seek and truncate do not), also with a reader that is busy for 12..35 s of real time so that every write stalls; RLIMIT_FSIZE budget n for every 4096-byte flush index +-1 byte, the header offsets 0/1/83/84/85, size-1/-84/-85, and the unreached control budget; thorough adds every byte offset for small files) x schedule (fifo, uniform, starve(consumer), starve(renderer)); oracle = the call returns (simulator deadlock verdict otherwise). part 2: histories that repeat a block of renders (all sinks and renderer families, failing renders included; or one renderer kind at alternating coarse and fine resolutions) R>=4 times; oracle = goroutine count at quiescence after repetition R <= after repetition 2. Non-trivial = the injected fault actually fired (or, for census episodes, a uniform render ran); distinct = (entry, fault kind, budget, policy)."
+	pl.rule = "part 1: for every render-to-file entry (ToSTL/To3MF/ToDXF/ToSVG) x renderer (scripted; uniform and octree marching cubes; uniform/quadtree marching squares; 2D dual contouring) x fault (create fails: missing directory, path is a directory; /dev/full; the file is unlinked right after it was created; the process is out of file descriptors (EMFILE); the path is a named pipe with a reader (writes succeed, seek and truncate do not), also with a reader that is busy for 12..35 s of real time so that every write stalls; a failed flush followed by a renderer that pauses 7..31 s of real time and then goes on producing; RLIMIT_FSIZE budget n for every 4096-byte flush index +-1 byte, the header offsets 0/1/83/84/85, size-1/-84/-85, and the unreached control budget; thorough adds every byte offset for small files) x schedule (fifo, uniform, starve(consumer), starve(renderer)); oracle = the call returns (simulator deadlock verdict otherwise). part 2: histories that repeat a block of renders (all sinks and renderer families, failing renders included; or one renderer kind at alternating coarse and fine resolutions) R>=4 times; oracle = goroutine count at quiescence after repetition R <= after repetition 2. Non-trivial = the injected fault actually fired (or, for census episodes, a uniform render ran); distinct = (entry, fault kind, budget, policy)."
 	pl.nontriv = func(o *runOut) (bool, string) {
 		if o.res == nil {
 			return false, ""
